@@ -29,6 +29,8 @@ where
     type Item = EntryRef<'a, K, V>;
 
     fn next(&mut self) -> Option<Self::Item> {
+        #[cfg(mini_moka_verif)]
+        crate::verif::map_probe_any();
         for map_ref in &mut self.map_iter {
             if !self.cache.is_expired_entry(map_ref.value()) {
                 return Some(EntryRef::new(map_ref));
